@@ -6,6 +6,7 @@ import (
 	"fmt"
 	"go/types"
 	"net/textproto"
+	"net/url"
 
 	"golang.org/x/tools/go/ssa"
 )
@@ -210,6 +211,49 @@ func init() {
 		ex.stub("base64.EncodeToString: opaque text of the right length")
 		n := (len(src) + 2) / 3 * 4
 		return ex.freshEnvStr("b64", n)
+	})
+}
+
+func init() {
+	harnessExt["verifSetQuery"] = func(ex *Exec, fr *frame, fn *ssa.Function, args []Value) Value {
+		u := args[0].(*Value)
+		ex.pathState[fmt.Sprintf("query:%p", u)] = args[1]
+		ex.stub("URL query: url.Values carried in a side table (escaping of the query string is net/url's job)")
+		return nil
+	}
+	reg("(*net/url.URL).Query", func(ex *Exec, fr *frame, fn *ssa.Function, args []Value) Value {
+		u := args[0].(*Value)
+		if u == nil {
+			ex.goPanic("nil *url.URL")
+		}
+		if v, ok := ex.pathState[fmt.Sprintf("query:%p", u)]; ok {
+			src, _ := v.(*Map)
+			m := newMap()
+			if src != nil {
+				for _, e := range src.live() {
+					vals := e.v.(Slice)
+					cp := make([]Value, len(vals.a))
+					copy(cp, vals.a)
+					ex.mapSet(m, e.k, Slice{cp})
+				}
+			}
+			return m
+		}
+		// no side table: RawQuery must be concrete
+		raw, ok := (*u).(Struct)[8].(Str).concrete()
+		if !ok {
+			ex.unsupported("URL.Query on symbolic RawQuery")
+		}
+		vals, _ := url.ParseQuery(raw)
+		m := newMap()
+		for k, vs := range vals {
+			a := make([]Value, len(vs))
+			for i, x := range vs {
+				a[i] = mkStr(x)
+			}
+			ex.mapSet(m, mkStr(k), Slice{a})
+		}
+		return m
 	})
 }
 
